@@ -65,7 +65,8 @@ class Hang(Exception):
 
 
 def time_limit(seconds=20):
-    """Context manager: raise Hang in the main thread after `seconds` of wall clock."""
+    """Context manager: raise Hang in the main thread after `seconds` of CPU time of this process (a hang of the
+    layout is a busy loop; CPU time, unlike wall clock, does not depend on how loaded the machine is)."""
     import contextlib
     import signal
 
@@ -74,14 +75,14 @@ def time_limit(seconds=20):
         def on_alarm(signum, frame):
             raise Hang()
         try:
-            previous = signal.signal(signal.SIGALRM, on_alarm)
+            previous = signal.signal(signal.SIGPROF, on_alarm)
         except ValueError:          # not in the main thread: no limit
             yield
             return
-        signal.alarm(seconds)
+        signal.setitimer(signal.ITIMER_PROF, seconds)
         try:
             yield
         finally:
-            signal.alarm(0)
-            signal.signal(signal.SIGALRM, previous)
+            signal.setitimer(signal.ITIMER_PROF, 0)
+            signal.signal(signal.SIGPROF, previous)
     return manager()
